@@ -186,7 +186,7 @@ def _let(pat, scr):
                 depth -= 1
             elif ch == "," and depth == 0:
                 n += 1
-        return ("op", "==", [("call", "slice::len", [scr]), ("lit", str(n))])
+        return ("op", "==", [_renorm_call(("call", "slice::len", [scr])), ("lit", str(n))])
     if scr[0] == "call" and scr[1] == "Option::map" and len(scr[2]) == 2 and re.fullmatch(r"(v1|Option)::Some\([$_]\)", pat):
         return _let(pat, scr[2][0])         # opt.map(f) is Some exactly when opt is
     if scr[0] == "call" and scr[1] == "Option::and_then" and len(scr[2]) == 2 and scr[2][1][0] == "closure" and scr[2][1][2] == 1 \
@@ -1386,6 +1386,15 @@ def _mk_if_raw(c, t, e):
     if t[0] == "struct" and e[0] == "struct" and t[1] == e[1] and t[2] == e[2] and t[3] is not None and e[3] is not None and set(t[3]) == set(e[3]):
         # if c { S { a: x1, b: y } } else { S { a: x2, b: y } }  ==  S { a: if c { x1 } else { x2 }, b: y }
         return ("struct", t[1], t[2], {f: (t[3][f] if t[3][f] == e[3][f] else _mk_if_raw(c, t[3][f], e[3][f])) for f in t[3]})
+    if c[0] == "op" and c[1] == "==" and len(c[2]) == 2 and c[2][1] == ("lit", "1") and c[2][0][0] == "call" and c[2][0][1] == "slice::len":
+        # a list of one element joined with any separator is that element: under `len == 1`, xs[0] is xs.join(sep)
+        for j_ in [x for x in subterms(e) if x[0] == "call" and x[1] == "slice::join" and len(x[2]) == 2]:
+            xs = j_[2][0]
+            if _renorm_call(("call", "slice::len", [xs])) == c[2][0]:
+                idx = ("index", xs, ("lit", "0"))
+                if any(x == idx for x in subterms(t)):
+                    t = rewrite(t, lambda n: j_ if n == idx else None)
+                    break
     if (t[0] == "fmt") != (e[0] == "fmt") or (t[0] == "fmt" and e[0] == "fmt"):
         # text with a common beginning / end: if c { A } else { format!("{A}{B}") }  ==  format!("{A}{}", if c { "" } else { B })
         def parts(x):
@@ -1399,7 +1408,18 @@ def _mk_if_raw(c, t, e):
         while j < min(len(pt), len(pe)) - i and pt[len(pt) - 1 - j] == pe[len(pe) - 1 - j]:
             j += 1
         mt, me = pt[i:len(pt) - j], pe[i:len(pe) - j]
-        if (i or j) and (not mt or not me) and (mt or me):
+        tail_lit = None
+        if len(mt) == 1 and len(me) == 1 and mt[0][0] == "lit" and me[0][0] == "lit" and j == 0 and i:
+            # the literal texts that differ may still end alike: ",)" / ")" is "," / "" followed by ")"
+            a_, b_ = mt[0][1], me[0][1]
+            k_ = 0
+            while k_ < min(len(a_), len(b_)) and a_[len(a_) - 1 - k_] == b_[len(b_) - 1 - k_]:
+                k_ += 1
+            if k_ and (k_ == len(a_) or k_ == len(b_)):
+                tail_lit = ("lit", a_[len(a_) - k_:])
+                mt = [("lit", a_[:len(a_) - k_])] if len(a_) > k_ else []
+                me = [("lit", b_[:len(b_) - k_])] if len(b_) > k_ else []
+        if (i or j or tail_lit) and (not mt or not me) and (mt or me):
             def text(ps):
                 if not ps:
                     return ("lit", "")
@@ -1409,7 +1429,7 @@ def _mk_if_raw(c, t, e):
                     return ps[0][2]
                 return ("fmt", ps)
             mid = _mk_if_raw(c, text(mt), text(me))
-            return ("fmt", pt[:i] + [("arg", "", mid)] + pt[len(pt) - j:])
+            return ("fmt", pt[:i] + [("arg", "", mid)] + ([tail_lit] if tail_lit else []) + (pt[len(pt) - j:] if j else []))
     if t == ("lit", True) and e == ("lit", False):
         return c
     if t == ("lit", False) and e == ("lit", True):
@@ -1691,8 +1711,13 @@ def _renorm_call(n):
             return args[0]
     if name in ("slice::len", "slice::is_empty") and len(args) == 1:
         base = args[0]
-        while base[0] == "call" and base[1] in _LEN_PRESERVING and base[2] and not (base[1] == "Iterator::collect" and base[2][0][0] == "try"):
-            base = base[2][0]
+        while True:
+            if base[0] == "try" and base[1][0] == "call" and base[1][1] == "Iterator::collect":
+                base = base[1]            # the list that `collect::<Result<Vec<_>, _>>()?` yields has one element per element of what was collected
+            elif base[0] == "call" and base[1] in _LEN_PRESERVING and base[2] and not (base[1] == "Iterator::collect" and base[2][0][0] == "try"):
+                base = base[2][0]
+            else:
+                break
         if base is not args[0]:
             return ("call", name, [base])
     return n
